@@ -143,6 +143,11 @@ std::atomic<uint64_t> g_reuse_total{0}, g_reuse_in_exit_window{0}, g_hb_alive_ch
 std::atomic<uint64_t> g_slot_claims[kN > 0 ? kN : 1];
 std::atomic<uint64_t> g_wraps{0};
 std::atomic<uint64_t> g_pattern_sig{0};
+// observers may pin a heartbeat with weak_ptr::lock(); sandwich counters tell the checks when a pin can have kept
+// a heartbeat alive
+std::atomic<uint64_t> g_pin_begin[kN > 0 ? kN : 1], g_pin_end[kN > 0 ? kN : 1];
+std::atomic<uint64_t> g_pins{0}, g_stability_checks_while_pinned{0};
+std::atomic<int> g_pinning{0};  // 1: this run uses pins
 
 thread_local uint64_t tl_probe_count = 0;
 thread_local uint64_t tl_my_id = ~0ULL;
@@ -191,8 +196,9 @@ ThreadBody(uint64_t seed, int pattern, uint64_t hold_ns, std::atomic<int> *gate,
   if (tl_probe_count > 1) g_contended_claims.fetch_add(1);
   if (tl_probe_count > kN) g_wraps.fetch_add(1);
   if (id >= kN) {
-    Violate("C05", "id-out-of-range", Fmt("GetThreadID returned %zu with capacity %zu", id, kN));
-    ChaosThreadEnd();
+    Violate("C05", "id-out-of-range", Fmt("GetThreadID returned %zu with capacity %zu (probe pattern %d)", id, kN, pattern));
+    if (holders != nullptr) holders->fetch_add(1);
+    g_finished.fetch_add(1);
     return;
   }
   tl_my_id = id;
@@ -209,9 +215,11 @@ ThreadBody(uint64_t seed, int pattern, uint64_t hold_ns, std::atomic<int> *gate,
   {
     std::lock_guard<std::mutex> g{g_hist_mtx[id]};
     size_t alive = 0;
+    const auto pins_ended = g_pin_end[id].load(kMo);
     for (auto &wp : g_hist[id]) alive += wp.expired() ? 0 : 1;
+    const bool pin_possible = g_pin_begin[id].load(kMo) != pins_ended;  // some pin overlapped the check
     if (!g_hist[id].empty()) g_reuse_total.fetch_add(1);
-    if (alive != 0) {
+    if (alive != 0 && !pin_possible) {
       Violate("C15", "id-reused-while-an-earlier-owners-heartbeat-is-unexpired",
               Fmt("capacity=%zu pattern=%d: id %zu was handed to thread uid=%" PRIu64 " although %zu of %zu "
                   "heartbeats of earlier owners of that id are not expired",
@@ -237,11 +245,44 @@ ThreadBody(uint64_t seed, int pattern, uint64_t hold_ns, std::atomic<int> *gate,
     while (holders->load(kMo) < need_holders) sched_yield();
   }
   // stability + liveness of other threads' heartbeats
-  const int reps = 1 + static_cast<int>(r.Below(6));
+  const bool pinning = g_pinning.load(kRlx) != 0;
+  const int reps = (pinning ? 10 : 1) + static_cast<int>(r.Below(pinning ? 14 : 6));
   for (int i = 0; i < reps; ++i) {
+    const bool pinned_now = g_pin_begin[id].load(kMo) != g_pin_end[id].load(kMo);
     const auto again = (i & 1) ? IDManager::GetThreadID() : *IDManager::GetHeartBeat().lock();
+    if (pinned_now) g_stability_checks_while_pinned.fetch_add(1, kRlx);
     if (again != id) {
-      Violate("C05", "id-not-stable", Fmt("uid=%" PRIu64 " first got id %zu, later call returned %zu", uid, id, again));
+      Violate("C05", "id-not-stable",
+              Fmt("capacity=%zu: thread uid=%" PRIu64 " first got id %zu, a later call returned %zu%s", kN, uid, id, again,
+                  pinned_now ? " (another thread was holding a shared_ptr obtained from its heartbeat via lock())" : ""));
+    }
+    if (IDManager::GetHeartBeat().expired() || my_hb.expired()) {
+      Violate("C15", "heartbeat-of-running-thread-expired", Fmt("capacity=%zu uid=%" PRIu64 " id=%zu: own heartbeat expired while running", kN, uid, id));
+    }
+    if (pinning && r.Chance(1, 2)) {
+      // pin another running thread's heartbeat for a moment (a legitimate use of the weak_ptr)
+      const auto o2 = 1 + r.Below(g_uid.load());
+      auto &ps = g_live[o2 % kMaxLive];
+      if (o2 != uid && ps.state.load(kMo) == 1) {
+        const auto oid = ps.id.load(kMo);
+        if (oid < kN) {
+          g_pin_begin[oid].fetch_add(1, kMo);
+          {
+            std::weak_ptr<size_t> w;
+            {
+              std::lock_guard<std::mutex> g{ps.mtx};
+              w = ps.hb;
+            }
+            auto sp = w.lock();
+            if (sp) {
+              g_pins.fetch_add(1, kRlx);
+              if (*sp >= kN) Violate("C05", "heartbeat-carries-out-of-range-id", Fmt("%zu", *sp));
+              SpinNs(r.Below(30000));
+            }
+          }
+          g_pin_end[oid].fetch_add(1, kMo);
+        }
+      }
     }
     // another running thread's heartbeat must not be expired
     const auto other = 1 + r.Below(g_uid.load());
@@ -305,7 +346,13 @@ WaitAll(std::vector<std::thread> &ths, const char *scenario, uint64_t expect_cla
               Fmt("capacity=%zu %s: %" PRIu64 " thread(s) have been spinning in GetThreadID for %" PRIu64
                   " s although only %" PRIu64 " of the threads of this step still hold an ID (ghost owner table: %s)",
                   kN, ctx.c_str(), g_claiming.load(), g_cfg.hang_s, g_claimed.load() - g_finished.load(), owners.c_str()));
-      return false;
+      Result hres;
+      hres.counters["evaluations"] = g_finished.load();
+      hres.Add("thread_lifetimes", g_finished.load());
+      hres.Add("hangs", 1);
+      EmitResult(hres, "hang");
+      fflush(stdout);
+      _exit(0);
     }
     SleepNs(200000);
   }
@@ -338,6 +385,7 @@ Run()
   for (uint64_t round = 0; round < rounds && !hung; ++round) {
     const int pattern = static_cast<int>(r.Below(6));
     g_pattern_sig.fetch_or(1ULL << pattern);
+    g_pinning.store((round & 1) ? 1 : 0, kMo);
     const int scenario = static_cast<int>(r.Below(4));
     const uint64_t hold = r.Below(3) == 0 ? 0 : r.Range(100, 20000);
     const auto base_finished = g_finished.load();
@@ -407,6 +455,8 @@ Run()
   res.Add("claims_that_probed_more_than_one_slot", g_contended_claims.load());
   res.Add("claims_that_wrapped_around", g_wraps.load());
   res.Add("heartbeat_alive_checks_on_running_threads", g_hb_alive_checks.load());
+  res.Add("heartbeats_pinned_by_other_threads", g_pins.load());
+  res.Add("stability_checks_while_heartbeat_pinned", g_stability_checks_while_pinned.load());
   for (size_t i = 0; i < kN && i < 64; ++i) {
     if (g_slot_claims[i].load()) res.signatures.push_back(Fmt("id:N=%zu:slot-%zu-claimed", kN, i));
   }
@@ -970,10 +1020,11 @@ Run()
  *############################################################################*/
 namespace md
 {
-alignas(64) unsigned char g_em_storage[sizeof(EpochManager)];
+alignas(64) unsigned char g_em_storage[2][sizeof(EpochManager)];
 
 struct Cmd {
-  std::atomic<int> op{0};  // 0 idle, 1 create guard, 2 destroy guard, 3 exit
+  std::atomic<int> op{0};  // 0 idle, 1 create guard on manager 0 (assign onto whatever the variable holds), 2 destroy,
+                           // 3 exit, 4 create guard on manager 1 (assign), 5 move-construct round trip
   std::atomic<int> ack{0};
   std::atomic<uint64_t> epoch{0};
 };
@@ -981,22 +1032,29 @@ struct Cmd {
 struct WorkerCtl {
   Cmd cmd;
   std::thread th;
-  bool has_guard{false};
+  int mgr{-1};  // manager whose guard the worker's variable holds (-1 none)
   uint64_t pinned{0};
 };
 
 void
-WorkerLoop(EpochManager *em, Cmd *c)
+WorkerLoop(EpochManager *em0, EpochManager *em1, Cmd *c)
 {
   EpochGuard guard{};
   while (true) {
     int op = 0;
     while ((op = c->op.load(std::memory_order_acquire)) == 0) sched_yield();
     if (op == 1) {
-      guard = em->CreateEpochGuard();
+      guard = em0->CreateEpochGuard();
+      c->epoch.store(guard.GetProtectedEpoch());
+    } else if (op == 4) {
+      guard = em1->CreateEpochGuard();
       c->epoch.store(guard.GetProtectedEpoch());
     } else if (op == 2) {
       guard = EpochGuard{};
+    } else if (op == 5) {
+      EpochGuard tmp{std::move(guard)};
+      guard = std::move(tmp);
+      c->epoch.store(guard.GetProtectedEpoch());
     }
     c->op.store(0, std::memory_order_relaxed);
     c->ack.fetch_add(1, std::memory_order_release);
@@ -1019,118 +1077,227 @@ Run()
   r.Seed(g_cfg.seed * 4241 + kN);
   Result res;
   const uint64_t histories = 6 * g_cfg.scale;
-  uint64_t total_forwards = 0, total_checks = 0, max_nodes = 0, boundaries = 0, managers = 0;
+  uint64_t total_forwards = 0, total_checks = 0, max_nodes = 0, boundaries = 0, managers = 0, overwrites = 0;
   std::set<std::string> sigs;
   for (uint64_t h = 0; h < histories; ++h) {
     const auto base_nodes = g_aligned_live.load();
-    g_bytes_live.store(0);
-    g_track_all.store(true);
-    auto *em = new (g_em_storage) EpochManager{};
-    ++managers;
+    EpochManager *em[2] = {new (g_em_storage[0]) EpochManager{}, new (g_em_storage[1]) EpochManager{}};
+    managers += 2;
     const size_t nw = kN <= 1 ? 0 : 1 + r.Below(std::min<size_t>(kN - 1, 12));
     std::vector<std::unique_ptr<WorkerCtl>> ws;
     for (size_t i = 0; i < nw; ++i) {
       ws.emplace_back(new WorkerCtl{});
-      ws.back()->th = std::thread(WorkerLoop, em, &ws.back()->cmd);
+      ws.back()->th = std::thread(WorkerLoop, em[0], em[1], &ws.back()->cmd);
     }
-    uint64_t cur = EpochManager::kInitialEpoch;
-    if (em->GetCurrentEpoch() != cur) Violate("C16", "initial-epoch-wrong", Fmt("%zu", em->GetCurrentEpoch()));
+    uint64_t cur[2] = {EpochManager::kInitialEpoch, EpochManager::kInitialEpoch};
+    for (int m = 0; m < 2; ++m) {
+      if (em[m]->GetCurrentEpoch() != cur[m]) Violate("C16", "initial-epoch-wrong", Fmt("%zu", em[m]->GetCurrentEpoch()));
+    }
     const uint64_t steps = r.Chance(1, 3) ? r.Range(300, 1500) : r.Range(1500, 12000);
     const uint32_t p_forward = static_cast<uint32_t>(r.Range(40, 98));
     const bool long_pins = r.Chance(1, 2);
-    for (uint64_t s = 0; s < steps; ++s) {
+    const bool two_managers = r.Chance(1, 2);
+    bool stop = false;
+    for (uint64_t s = 0; s < steps && !stop; ++s) {
       if (r.Below(100) < p_forward || nw == 0) {
-        em->ForwardGlobalEpoch();
-        ++cur;
+        const int m = (two_managers && r.Chance(1, 4)) ? 1 : 0;
+        em[m]->ForwardGlobalEpoch();
+        ++cur[m];
         ++total_forwards;
-        if ((cur & 255) == 0) ++boundaries;
+        if ((cur[m] & 255) == 0) ++boundaries;
         // expected list
-        std::vector<size_t> exp = {cur, cur - 1};
+        std::vector<size_t> exp = {cur[m], cur[m] - 1};
         for (auto &w : ws) {
-          if (w->has_guard) exp.push_back(w->pinned);
+          if (w->mgr == m) exp.push_back(w->pinned);
         }
         std::sort(exp.begin(), exp.end(), std::greater<size_t>{});
         exp.erase(std::unique(exp.begin(), exp.end()), exp.end());
-        if (em->GetCurrentEpoch() != cur) {
-          Violate("C16", "epoch-did-not-advance-by-exactly-one", Fmt("model mode: expected %" PRIu64 " got %zu", cur, em->GetCurrentEpoch()));
+        if (em[m]->GetCurrentEpoch() != cur[m]) {
+          Violate("C16", "epoch-did-not-advance-by-exactly-one", Fmt("model mode: expected %" PRIu64 " got %zu", cur[m], em[m]->GetCurrentEpoch()));
         }
-        // read the list through the API (the controller has an ID of its own only if capacity allows: with
-        // nw <= N-1 workers there is one left)
+        // read the list through the API (the controller uses the one ID the workers leave free)
         std::vector<size_t> got;
         {
-          auto &&[g, l] = em->GetProtectedEpochs();
+          auto &&[g, l] = em[m]->GetProtectedEpochs();
           got = l;
-          if (g.GetProtectedEpoch() != cur) Violate("C20", "controller-guard-epoch-wrong", Fmt("%zu vs %" PRIu64, g.GetProtectedEpoch(), cur));
+          if (g.GetProtectedEpoch() != cur[m]) Violate("C20", "controller-guard-epoch-wrong", Fmt("%zu vs %" PRIu64, g.GetProtectedEpoch(), cur[m]));
         }
-        const auto m = em->GetMinEpoch();
+        const auto mn = em[m]->GetMinEpoch();
         ++total_checks;
-        if (got != exp || m != exp.back()) {
+        if (got != exp || mn != exp.back()) {
           std::string es = "[", gs = "[";
           for (auto v : exp) es += Fmt("%zu,", v);
           for (auto v : got) gs += Fmt("%zu,", v);
           Violate("C20", "published-list-differs-from-reference-model",
-                  Fmt("capacity=%zu history %" PRIu64 " step %" PRIu64 ": after ForwardGlobalEpoch to %" PRIu64 " the list is %s] and GetMinEpoch()=%zu; "
-                      "reference model (sorted distinct {new, previous, pinned}) gives %s] and %zu",
-                      kN, h, s, cur, gs.c_str(), m, es.c_str(), exp.back()));
+                  Fmt("capacity=%zu history %" PRIu64 " step %" PRIu64 " manager %d: after ForwardGlobalEpoch to %" PRIu64 " the list is %s] and "
+                      "GetMinEpoch()=%zu; reference model (sorted distinct {new, previous, pinned}) gives %s] and %zu",
+                      kN, h, s, m, cur[m], gs.c_str(), mn, es.c_str(), exp.back()));
+          // an epoch in the list that no live guard pins: a destroyed / overwritten guard still pins (C16)
+          for (auto v : got) {
+            if (v < cur[m] - 1 && std::find(exp.begin(), exp.end(), v) == exp.end()) {
+              Violate("C16", "destroyed-or-overwritten-guard-still-pins-its-epoch",
+                      Fmt("capacity=%zu manager %d: epoch %zu is in the list published for %" PRIu64 " (%s]) although no live guard pins it", kN, m, v,
+                          cur[m], gs.c_str()));
+              break;
+            }
+          }
+          stop = true;
         }
-        // memory bound: nodes <= distinct 256-ranges of the list + 2
-        std::set<size_t> ranges;
-        for (auto v : exp) ranges.insert(v >> 8);
+        // memory bound: nodes <= distinct 256-ranges of the lists + 2 per manager
+        std::set<std::pair<int, size_t>> ranges;
+        for (int mm = 0; mm < 2; ++mm) {
+          ranges.insert({mm, cur[mm] >> 8});
+          ranges.insert({mm, (cur[mm] - 1) >> 8});
+        }
+        for (auto &w : ws) {
+          if (w->mgr >= 0) ranges.insert({w->mgr, w->pinned >> 8});
+        }
         const auto nodes = static_cast<uint64_t>(g_aligned_live.load() - base_nodes);
         max_nodes = std::max(max_nodes, nodes);
-        if (nodes > ranges.size() + 2) {
+        if (nodes > ranges.size() + 4) {
           Violate("C20", "more-list-nodes-alive-than-protected-ranges-plus-constant",
-                  Fmt("capacity=%zu history %" PRIu64 " epoch %" PRIu64 ": %" PRIu64 " list nodes are allocated but the list covers only %zu distinct "
-                      "256-epoch ranges",
-                      kN, h, cur, nodes, ranges.size()));
-          break;
+                  Fmt("capacity=%zu history %" PRIu64 " epochs %" PRIu64 "/%" PRIu64 ": %" PRIu64 " list nodes are allocated but the lists of both "
+                      "managers cover only %zu distinct 256-epoch ranges",
+                      kN, h, cur[0], cur[1], nodes, ranges.size()));
+          stop = true;
         }
-        sigs.insert(Fmt("model:N=%zu:pins=%zu:ranges=%zu", kN, std::min<size_t>(exp.size() - 2, 4), std::min<size_t>(ranges.size(), 4)));
+        sigs.insert(Fmt("model:N=%zu:pins=%zu:ranges=%zu", kN, std::min<size_t>(exp.size() - 2, 4), std::min<size_t>(ranges.size(), 6)));
       } else {
         auto &w = *ws[r.Below(nw)];
-        if (!w.has_guard) {
-          Do(w, 1);
-          w.has_guard = true;
+        const auto k = r.Below(10);
+        if (w.mgr < 0) {
+          const int m = (two_managers && r.Chance(1, 3)) ? 1 : 0;
+          Do(w, m == 0 ? 1 : 4);
+          w.mgr = m;
           w.pinned = w.cmd.epoch.load();
-          if (w.pinned != cur) {
-            Violate("C20", "guard-created-in-quiescence-does-not-report-current-epoch", Fmt("guard epoch %" PRIu64 ", current %" PRIu64, w.pinned, cur));
+          if (w.pinned != cur[m]) {
+            Violate("C20", "guard-created-in-quiescence-does-not-report-current-epoch", Fmt("guard epoch %" PRIu64 ", current %" PRIu64, w.pinned, cur[m]));
+            stop = true;
+          }
+        } else if (two_managers && k < 2) {
+          // assign a guard of the other manager over the live guard: the old pin ends, the new one begins
+          const int m = 1 - w.mgr;
+          Do(w, m == 0 ? 1 : 4);
+          w.mgr = m;
+          w.pinned = w.cmd.epoch.load();
+          ++overwrites;
+          sigs.insert(Fmt("model:N=%zu:guard-of-other-manager-assigned-over-live-guard", kN));
+          if (w.pinned != cur[m]) {
+            Violate("C20", "guard-created-in-quiescence-does-not-report-current-epoch", Fmt("guard epoch %" PRIu64 ", current %" PRIu64, w.pinned, cur[m]));
+            stop = true;
+          }
+        } else if (k < 4) {
+          Do(w, 5);
+          if (w.cmd.epoch.load() != w.pinned) {
+            Violate("C04", "guard-epoch-changed-by-move", Fmt("guard reported %" PRIu64 " before and %" PRIu64 " after a move round trip", w.pinned, w.cmd.epoch.load()));
+            stop = true;
           }
         } else if (!long_pins || r.Chance(1, 6)) {
           Do(w, 2);
-          w.has_guard = false;
+          w.mgr = -1;
         }
       }
     }
-    // destroy the manager with guards possibly alive in workers: release guards first in half of the histories
-    const bool release_first = r.Chance(1, 2);
-    if (release_first) {
-      for (auto &w : ws) {
-        if (w->has_guard) Do(*w, 2);
+    for (auto &w : ws) {
+      if (w->mgr >= 0) Do(*w, 2);  // guards must not outlive their manager (LeaveEpoch touches it)
+      w->mgr = -1;
+    }
+    if (!stop && r.Chance(1, 2)) {
+      // C16: all guards are gone; one complete forward must leave exactly {cur, cur-1}
+      for (int m = 0; m < 2; ++m) {
+        em[m]->ForwardGlobalEpoch();
+        ++cur[m];
+        auto &&[g, l] = em[m]->GetProtectedEpochs();
+        if (l != std::vector<size_t>{cur[m], cur[m] - 1} || em[m]->GetMinEpoch() != cur[m] - 1) {
+          Violate("C16", "destroyed-guards-still-pin-after-a-complete-forward",
+                  Fmt("capacity=%zu manager %d history %" PRIu64 ": all guards destroyed, list has %zu entries, GetMinEpoch()=%zu, current %" PRIu64, kN, m, h,
+                      l.size(), em[m]->GetMinEpoch(), cur[m]));
+        }
       }
     }
     for (auto &w : ws) {
-      if (!release_first && w->has_guard) Do(*w, 2);  // guards must not outlive the manager (LeaveEpoch touches it)
       Do(*w, 3);
       w->th.join();
     }
-    em->~EpochManager();
+    em[0]->~EpochManager();
+    em[1]->~EpochManager();
     const auto left = g_aligned_live.load() - base_nodes;
     if (left != 0) {
       Violate("C20", "list-nodes-not-freed-by-destructor",
-              Fmt("capacity=%zu history %" PRIu64 ": %" PRId64 " list nodes are still allocated after ~EpochManager (final epoch %" PRIu64 ")", kN, h,
-                  static_cast<int64_t>(left), cur));
+              Fmt("capacity=%zu history %" PRIu64 ": %" PRId64 " list nodes are still allocated after ~EpochManager (final epochs %" PRIu64 "/%" PRIu64 ")", kN,
+                  h, static_cast<int64_t>(left), cur[0], cur[1]));
     }
-    sigs.insert(Fmt("model:N=%zu:destroyed-at-%s", kN, (cur & 255) < 3 ? "node-boundary" : "mid-node"));
+    sigs.insert(Fmt("model:N=%zu:destroyed-at-%s", kN, (cur[0] & 255) < 3 ? "node-boundary" : "mid-node"));
   }
   res.Add("histories", histories);
   res.Add("managers_destroyed", managers);
   res.Add("forwards", total_forwards);
   res.Add("lists_compared_with_model", total_checks);
   res.Add("node_boundaries_crossed", boundaries);
+  res.Add("guards_assigned_over_live_guard_of_other_manager", overwrites);
   res.counters["max_live_list_nodes"] = max_nodes;
   res.counters["evaluations"] = total_checks;
   for (auto &s : sigs) res.signatures.push_back(s);
   res.samples.push_back(Fmt("{\"capacity\":%zu,\"histories\":%" PRIu64 ",\"forwards\":%" PRIu64 ",\"seed\":%" PRIu64 "}", kN, histories, total_forwards, g_cfg.seed));
+  EmitResult(res, "ok");
+  return 0;
+}
+
+/*------------------------------------------------------------------------------
+ * mode=long : C16 over very many forwards (powers of two up to 2^target)
+ *----------------------------------------------------------------------------*/
+int
+RunLong()
+{
+  Result res;
+  const uint64_t target = (1ULL << g_cfg.scale) + 4096;  // scale = log2 of the epoch to cross
+  auto *em = new (g_em_storage[0]) EpochManager{};
+  const auto base_nodes = g_aligned_live.load();
+  uint64_t cur = EpochManager::kInitialEpoch;
+  uint64_t full_checks = 0, pow2_crossed = 0;
+  uint64_t next_pow = 1ULL << 9;
+  bool stop = false;
+  std::set<std::string> sigs;
+  while (cur < target && !stop) {
+    em->ForwardGlobalEpoch();
+    ++cur;
+    const auto c = em->GetCurrentEpoch();
+    if (c != cur) {
+      Violate("C16", "epoch-did-not-advance-by-exactly-one", Fmt("after %" PRIu64 " forwards GetCurrentEpoch()=%zu, expected %" PRIu64, cur - EpochManager::kInitialEpoch, c, cur));
+      break;
+    }
+    while (next_pow + 300 < cur) {
+      next_pow <<= 1;
+    }
+    const bool near_pow = (cur + 300 >= next_pow && cur <= next_pow + 300);
+    if (cur == next_pow) {
+      ++pow2_crossed;
+      sigs.insert(Fmt("long:crossed-2^%d", 63 - __builtin_clzll(cur)));
+    }
+    if (near_pow || (cur & 0xFFF) == 0) {
+      auto &&[g, l] = em->GetProtectedEpochs();
+      ++full_checks;
+      if (g.GetProtectedEpoch() != cur || l != std::vector<size_t>{cur, cur - 1} || em->GetMinEpoch() != cur - 1) {
+        Violate("C16", "list-or-min-epoch-wrong-after-many-forwards",
+                Fmt("at epoch %" PRIu64 " (no guard alive): guard epoch %zu, list size %zu front %zu, GetMinEpoch()=%zu", cur, g.GetProtectedEpoch(), l.size(),
+                    l.empty() ? 0 : l.front(), em->GetMinEpoch()));
+        stop = true;
+      }
+      const auto nodes = g_aligned_live.load() - base_nodes;
+      if (nodes > 3) {
+        Violate("C20", "more-list-nodes-alive-than-protected-ranges-plus-constant", Fmt("%" PRId64 " extra nodes alive at epoch %" PRIu64 " with no guard", static_cast<int64_t>(nodes), cur));
+        stop = true;
+      }
+    }
+  }
+  res.Add("forwards", cur - EpochManager::kInitialEpoch);
+  res.Add("quiescent_checks", full_checks);
+  res.Add("powers_of_two_crossed", pow2_crossed);
+  res.counters["evaluations"] = cur - EpochManager::kInitialEpoch;
+  res.counters["max_final_epoch"] = cur;
+  for (auto &s : sigs) res.signatures.push_back(s);
+  res.samples.push_back(Fmt("{\"mode\":\"long\",\"capacity\":%zu,\"final_epoch\":%" PRIu64 "}", kN, cur));
+  em->~EpochManager();
   EmitResult(res, "ok");
   return 0;
 }
@@ -1167,6 +1334,7 @@ main(int argc, char **argv)
   if (g_cfg.mode == "id") return idm::Run();
   if (g_cfg.mode == "epoch") return ep::Run();
   if (g_cfg.mode == "model") return md::Run();
+  if (g_cfg.mode == "long") return md::RunLong();
   fprintf(stderr, "unknown mode\n");
   return 2;
 }
